@@ -129,3 +129,31 @@ fn c18_no_doc() {
     let r = jd::find_content_string(s);
     assert!(r.is_none(), "no documentation without a directly preceding doc comment");
 }
+
+/// Code sits between a doc comment (optionally followed by a line or block comment) and the construct: the doc comment belongs to
+/// that earlier code, the construct has none -- whatever comments followed the earlier doc comment.
+#[kani::proof]
+#[kani::unwind(26)]
+fn c18_no_doc_code_between() {
+    let c: [u8; 3] = kani::any();
+    kani::assume(c[0] < 4 && c[1] < 3 && c[2] < 4);
+    let mut buf = [0u8; 24];
+    let mut len = 0usize;
+    // "/**a*/"
+    for k in [0u8, 1, 1, 6, 1, 0] { put(&mut buf, &mut len, k); }
+    // what follows the doc comment before the code: " ", " //a\n", "/*a*/", "\n//a\n"
+    match c[0] {
+        0 => put(&mut buf, &mut len, 2),
+        1 => { for k in [2u8, 0, 0, 6, 3] { put(&mut buf, &mut len, k); } }
+        2 => { for k in [0u8, 1, 6, 1, 0] { put(&mut buf, &mut len, k); } }
+        _ => { for k in [3u8, 0, 0, 6, 3] { put(&mut buf, &mut len, k); } }
+    }
+    // the code the doc comment belongs to: "a;", "a,", "a;\n"
+    put(&mut buf, &mut len, 6);
+    match c[1] { 0 => put(&mut buf, &mut len, 11), 1 => { buf[len] = b','; len += 1; } _ => { put(&mut buf, &mut len, 11); put(&mut buf, &mut len, 3); } }
+    match c[2] { 0 => (), 1 => put(&mut buf, &mut len, 2), 2 => put(&mut buf, &mut len, 3), _ => { put(&mut buf, &mut len, 4); put(&mut buf, &mut len, 3); } }
+    let s = unsafe { core::str::from_utf8_unchecked(&buf[..len]) };
+    let r = jd::find_content_string(s);
+    assert!(r.is_none(), "a doc comment separated from the construct by code does not attach to it");
+    kani::cover!(c[0] == 1, "line comment after the earlier doc comment");
+}
